@@ -1411,6 +1411,22 @@ func buildPoolDriver(c *sim.Ctx) (poolDriver, error) {
 	return nil, fmt.Errorf("unknown pool variant %q", cs.Variant)
 }
 
+// pdConfigRejected: the pool's constructor refused the drawn configuration
+// (not a harness error). Only the lease grace period is drawn beyond what an
+// implementation may support; anything else a constructor refuses is a bug in
+// the geometry tables and still panics.
+func pdConfigRejected(c *sim.Ctx, err error) bool {
+	if err == nil {
+		return false
+	}
+	if pdStaticCaps(c.Case.Variant).Lease && c.Case.Knob("grace", 1) > 2 && strings.Contains(err.Error(), "grace period") {
+		c.S.Probe("config_rejected_grace")
+		c.S.Logf("configuration rejected by the constructor: %v", err)
+		return true
+	}
+	return false
+}
+
 // pdVariantLabel is the variant part of a fingerprint (no geometry, no ids).
 // withGrace keeps the "-gN" suffix of the lease variants (C05: the grace decides
 // which generation arithmetic is exercised); withEcho appends "+echo" to the
